@@ -4,9 +4,12 @@
 //!   rvmc replay <ID> <replay.json>
 //!   rvmc worker <ID> <tier> <lo> <hi> <idxfile>      (internal)
 
+mod c01;
 mod c08;
 mod c17;
 mod driver;
+mod exec;
+mod gen;
 mod imp;
 mod model;
 mod xlate;
@@ -23,6 +26,7 @@ pub fn profile() -> &'static str {
 
 fn property(id: &str) -> Option<Box<dyn Property>> {
     Some(match id {
+        "C01" => Box::new(c01::C01::new()),
         "C08" => Box::new(c08::C08::new()),
         "C17" => Box::new(c17::C17::new()),
         _ => return None,
